@@ -692,9 +692,9 @@ pub fn mutate_graph(rng: &mut Rng, fs: &mut Vec<Field>) -> String {
 
 /// Wrap the main graph `depth` times in If-node graph attributes (valid ONNX
 /// nesting all the way down, unlike pbmut::deep_nest which is bare framing).
-pub fn nest_graph(model: &[u8], depth: usize) -> Option<Vec<u8>> {
+pub fn nest_graph(model_bytes: &[u8], depth: usize) -> Option<Vec<u8>> {
     use vcommon::onnxpb::*;
-    let mut inner = get(model, &[(7, 0)])?;
+    let mut inner = get(model_bytes, &[(7, 0)])?;
     for i in 0..depth {
         let g = Pb { buf: inner.clone() };
         // One deep branch; the other one is a tiny graph (so size is linear in depth).
@@ -706,7 +706,7 @@ pub fn nest_graph(model: &[u8], depth: usize) -> Option<Vec<u8>> {
             return None;
         }
     }
-    let mut fs = parse(model)?;
+    let mut fs = parse(model_bytes)?;
     let slot = fs.iter_mut().find(|f| f.num == 7 && f.wire == 2)?;
     slot.data = inner;
     Some(encode(&fs))
